@@ -27,7 +27,8 @@ def is_friendly(v):
         return True
     if issubclass(t, Exception) and t.__module__ == 'builtins':
         return True
-    return getattr(t, '__name__', '') in ('Plain',) or getattr(t, '__name__', '').startswith('K_')
+    tn = type.__getattribute__(t, '__name__')
+    return tn in ('Plain',) or tn.startswith('K_')
 
 
 def children_of(v):
@@ -97,7 +98,7 @@ def compare_var(var_lookup, vid, value, limits, path, depth, budget_hit=False, s
     var = var_lookup.get(vid)
     if var is None:
         raise Mismatch('dangling-variable-id', path, {'vid': vid})
-    tname = type(value).__name__
+    tname = type.__getattribute__(type(value), '__name__')
     if var.type != tname:
         raise Mismatch('wrong-type', path, {'got': var.type, 'expected': tname})
     ok, why = text_ok(value, var.value, var.truncated, limits)
